@@ -24,7 +24,7 @@ func init() {
 func bigU(v uint64) *big.Int { return new(big.Int).SetUint64(v) }
 
 func runC16(r *core.Run) {
-	r.Rule("limit configurations (each of mint max / max balance / melt max unset, small, exactly at the value the next request reaches, one below) x seeded histories that move the balance across the boundary in both directions; after every operation IssuedEcash/RedeemedEcash/TotalBalance/RetrieveMintInfo are compared with big-integer reference sums and boundary quote requests (incl. amounts 2^63-1, 2^63, 2^64-balance, 2^64-1) are judged: refusal is demanded above a limit, nuts.4.disabled must equal (balance >= max balance); in addition (beyond the stated quantifier) the scheduler enumerates the preemption-bounded DB-call interleavings of a mint request and a swap request carrying the same B_, judged by the same totals and by restore; non-trivial = distinct (configuration, operation index) points with a non-zero balance or a limit decision at the boundary")
+	r.Rule("limit configurations (each of mint max / max balance / melt max unset, small, exactly at the value the next request reaches, one below) x seeded histories that move the balance across the boundary in both directions; after every operation IssuedEcash/RedeemedEcash/TotalBalance/RetrieveMintInfo are compared with big-integer reference sums and boundary quote requests (incl. amounts 2^63-1, 2^63, 2^64-balance, 2^64-1) are judged: refusal is demanded above a limit, nuts.4.disabled must equal (balance >= max balance); in addition (beyond the stated quantifier) the scheduler enumerates the preemption-bounded DB-call interleavings of a mint request and a swap request carrying the same B_, judged by the same totals and by restore; every sixth configuration starts by minting 2^53 + 2^k + 3 (totals a floating-point aggregate cannot hold); every fourth operation the totals are also asked from the admin RPC server (mint/manager) over its unix socket and compared per keyset and in total; non-trivial = distinct (configuration, operation index) points with a non-zero balance or a limit decision at the boundary")
 	r.Assume("the statement demands refusal above the limits, not acceptance below them: an unexpected refusal under a limit is an observation only")
 	nc, nops := pick(r, 12, 80), pick(r, 60, 200)
 	core.Parallel(nc, 8, func(ci int) {
